@@ -171,7 +171,7 @@ def excel_pair(chk, P):
     tab = I.instantiate(cls, [two_pots(I, P), W.nsym("cutoff"), W.nsym("nr")], {}, None)
     wb = I.getattr(tab, "workbook")
     ws = wb.obj.sheet("Pair")
-    site = cls.lookup("_populate_worksheet").site()
+    site = cls.site_of("_populate_worksheet")
     if ws is None:
         raise AnalysisError("no 'Pair' sheet")
     heads, row = sheet_rows(ws)
@@ -202,7 +202,7 @@ def excel_eam(chk, P, rule="C19.X2"):
     cls = P.cls("atsim.potentials.eam_tabulation", "Excel_EAMTabulation")
     tab = I.instantiate(cls, [two_pots(I, P), concrete_eam(I, P, False), W.nsym("cutoff"), W.nsym("nr"), W.nsym("cutoff_rho"), W.nsym("nrho")], {}, None)
     wb = I.getattr(tab, "workbook")
-    site = cls.lookup("_add_eam_density").site()
+    site = cls.site_of("_add_eam_density")
     for title, first, cut, n, fnpre in (("EAM-Density", "r", "cutoff", "nr", "rho_"), ("EAM-Embed", "rho", "cutoff_rho", "nrho", "F_")):
         ws = wb.obj.sheet(title)
         if ws is None:
